@@ -37,6 +37,14 @@ DOC_C = 'LAYER NAME "nocomment" TYPE LINE CLASS STYLE COLOR 1 2 3 END END END'
 DOC_BAD = 'MAP NAME "x" LAYER TYPE END END'
 DOC_BAD2 = 'MAP # kept?\n  NAME "x" # c2\n  /* c3 */ FOO\nEND'
 DOC_D = 'MAP\n  NAME "d" # n\n  # dangling comment before the end\nEND # after the end\n# and one more line\n'
+# two documents that differ only in the spelling of equal numbers (1 / 1.0, 0 / 0.0 / -0.0): equal and hash-equal values of different
+# types are what a value-keyed cache confuses
+DOC_E1 = 'MAP EXTENT 0 0 1 1 SYMBOL NAME "s" TYPE VECTOR POINTS 1 1 0 0 2 2 END END LAYER TYPE POINT CLASS STYLE SIZE 1 PATTERN 1 1 END OFFSET 0 0 END END END END'
+DOC_E2 = 'MAP EXTENT 0.0 -0.0 1.0 1.0 SYMBOL NAME "s" TYPE VECTOR POINTS 1.0 1.0 0.0 -0.0 2 2.0 END END LAYER TYPE POINT CLASS STYLE SIZE 1.0 PATTERN 1.0 1.0 END OFFSET 0.0 -0.0 END END END END'
+# every kind of mutable value a loaded dictionary holds (lists of strings, numbers, pairs; nested key-value blocks): the op 'parse_ns' edits
+# all of them in place after the result was recorded - the caller owns what loads returned
+DOC_P = ('MAP EXTENT 0 0 1 1 PROJECTION "init=epsg:4326" "no_defs" END CONFIG "A" "b" SYMBOL NAME "s" POINTS 1 1 2 2 END END LAYER TYPE POINT PROCESSING "A=1" PROCESSING "B=2" '
+         'PROJECTION "init=epsg:4326" "no_defs" END METADATA "k" "v" END CLASS STYLE COLOR 1 2 3 PATTERN 1 2 END END END END END')
 DOC_INVALID = 'MAP NAME "m" DATAPATTERN "x" LAYER NAME "l" ENCODING "u" END END'
 
 
@@ -57,7 +65,33 @@ def units(tier):
     us += [("DEBRUIJN", 3 if tier == "quick" else 4)]
     us += [("PURE_S6", i) for i in range(8)]
     us += [("PURE", t) for t in V.object_types()] + [("PURE_S4", i) for i in range(16)]
+    us += [("PURE_CMT", i) for i in range(16)]
     return us
+
+
+def commented_docs(shard):
+    """every line of every rich document x every ordered pair of comment kinds written on two lines of their own above
+    that line, plus a trailing '#' comment on it: the comment lists the loader attaches hold two or three entries"""
+    from .. import optsweep as O
+    from . import c14
+
+    kinds = ["#", "/**/", "2line"]
+    n = 0
+    for label, tree in O.rich_docs():
+        if isinstance(tree, list):
+            continue
+        lines = D.render(tree)[0].split("\n")
+        for i, ln in enumerate(lines):
+            if not ln.strip():
+                continue
+            ind = ln[: len(ln) - len(ln.lstrip())]
+            for ka in kinds:
+                for kb in kinds:
+                    n += 1
+                    if n % 16 != shard:
+                        continue
+                    new = lines[:i] + [ind + c14.comment_text(ka, 1), ind + c14.comment_text(kb, 2), ln + " " + c14.comment_text("#", 3)] + lines[i + 1:]
+                    yield "%s line %d %s,%s" % (label, i, ka, kb), "\n".join(new)
 
 
 PURE_OPTS = [dict(), dict(indent=2, quote="'", newlinechar="\r\n", end_comment=True, align_values=True), dict(indent=0, spacer="\t")]
@@ -93,9 +127,9 @@ def purity_calls(d, flags, public):
                 yield "findkey %s" % k, (lambda k=k: mappyfile.findkey(d, k, 0))
 
 
-def run_pure(res, docs, public=False):
+def run_pure(res, docs, public=False, flag_sets=({}, {"include_position": True}, {"include_comments": True, "include_position": True})):
     for label, text in docs:
-        for flags in ({}, {"include_position": True}, {"include_comments": True, "include_position": True}):
+        for flags in flag_sets:
             try:
                 d = impl.loads(text, **flags)
             except Exception:
@@ -124,8 +158,8 @@ def run_pure(res, docs, public=False):
 def hist_ops():
     return [
         ("parse_c", DOC_A), ("parse_c", DOC_B), ("parse_c", DOC_C), ("parse_c", DOC_BAD), ("parse_c", DOC_BAD2), ("parse_c", DOC_D),
-        ("parse_n", DOC_A), ("parse_n", DOC_BAD), ("parse_np", DOC_B),
-        ("print", DOC_A), ("print_c", DOC_B), ("print_sc", DOC_C),
+        ("parse_n", DOC_A), ("parse_n", DOC_BAD), ("parse_np", DOC_B), ("parse_n", DOC_E1), ("parse_n", DOC_E2), ("parse_n", DOC_P), ("parse_ns", DOC_P),
+        ("print", DOC_A), ("print", DOC_E1), ("print", DOC_E2), ("print", DOC_INVALID), ("print_c", DOC_B), ("print_sc", DOC_C),
         ("validate", DOC_A, None), ("validate", DOC_INVALID, 7.6), ("validate", DOC_INVALID, 8.2),
     ]
 
@@ -152,6 +186,11 @@ def do_op(w, op):
             return ("ok", D.typed(w.tc.transform(w.pc.parse(op[1]))))
         if op[0] == "parse_n":
             return ("ok", D.typed(w.tn.transform(w.pn.parse(op[1]))))
+        if op[0] == "parse_ns":
+            d = w.tn.transform(w.pn.parse(op[1]))
+            out = ("ok", D.typed(d))
+            _scribble(d)
+            return out
         if op[0] == "parse_np":
             return ("ok", D.typed(w.tp.transform(w.pn.parse(op[1]))))
         if op[0] == "print":
@@ -166,6 +205,19 @@ def do_op(w, op):
     except Exception as e:
         return ("exc", type(e).__name__)
     raise ValueError(op)
+
+
+def _scribble(d):
+    if isinstance(d, dict):
+        for v in list(d.values()):
+            _scribble(v)
+        d["zz_scribbled"] = "by the caller"
+    elif isinstance(d, list):
+        for v in d:
+            _scribble(v)
+        d.append("scribbled")
+        if not isinstance(d[0], (dict, list)):
+            d[0] = "scribbled"
 
 
 _fresh = {}
@@ -207,7 +259,7 @@ def run_hist_fresh(res, depth, first):
 
 
 def doc_name(op):
-    return {DOC_A: "A", DOC_B: "B", DOC_C: "C", DOC_D: "D", DOC_BAD: "BAD", DOC_BAD2: "BAD2", DOC_INVALID: "INVALID"}.get(op[1], "?") + ("" if len(op) < 3 else "@%s" % op[2])
+    return {DOC_A: "A", DOC_B: "B", DOC_C: "C", DOC_D: "D", DOC_BAD: "BAD", DOC_BAD2: "BAD2", DOC_INVALID: "INVALID", DOC_E1: "E1", DOC_E2: "E2", DOC_P: "P"}.get(op[1], "?") + ("" if len(op) < 3 else "@%s" % op[2])
 
 
 def de_bruijn(k, n):
@@ -260,10 +312,25 @@ def api_calls():
     if not os.path.exists(fn):
         with open(fn, "w", encoding="utf-8") as f:
             f.write(DOC_B)
+    # two root Mapfiles in different directories, each including a file of the same relative name
+    roots = {}
+    for sub in ("a", "b"):
+        os.makedirs(os.path.join(tmpdir, sub), exist_ok=True)
+        roots[sub] = os.path.join(tmpdir, sub, "root.map")
+        if not os.path.exists(roots[sub]):
+            with open(os.path.join(tmpdir, sub, "inc.map"), "w", encoding="utf-8") as f:
+                f.write('NAME "%s"\nINCLUDE "inc2.map"\n' % sub)
+            with open(os.path.join(tmpdir, sub, "inc2.map"), "w", encoding="utf-8") as f:
+                f.write('LAYER NAME "layer_%s" TYPE POINT END\n' % sub)
+            with open(roots[sub], "w", encoding="utf-8") as f:
+                f.write('MAP\n  INCLUDE "inc.map"\nEND\n')
     dA = mappyfile.loads(DOC_A)
     dI = mappyfile.loads(DOC_INVALID)
     dL = mappyfile.loads('MAP LAYER NAME "a" GROUP "g" TYPE POINT END LAYER NAME "b" TYPE POINT END END')
     dS = mappyfile.loads('SYMBOL NAME "s" TYPE ELLIPSE ANCHORPOINT 0.5 0.5 FILLED TRUE TRANSPARENT 5 END')
+    dLs = mappyfile.loads('LAYER NAME "x y" DATA "a b" CONNECTION "host=db user=web" CLASS NAME "c d" END END')
+    dW = mappyfile.loads('MAP NAME "m" SHAPEPATH "/a b" LAYER NAME "l" MAXSCALEDENOM 25000 TYPE POINT END END')   # alignment columns 12 and 16 (dA: 8)
+    dSs = mappyfile.loads('SYMBOL NAME "s t" IMAGE "a b.png" CHARACTER "q r" END')
     from mappyfile.validator import Validator
     return {
         "loads": lambda: D.typed(mappyfile.loads(DOC_C)),
@@ -273,12 +340,20 @@ def api_calls():
         "loads_comments_D": lambda: D.typed(mappyfile.loads(DOC_D, include_comments=True)),
         "dumps": lambda: mappyfile.dumps(copy.deepcopy(dA), indent=2, end_comment=True),
         "dumps_default": lambda: mappyfile.dumps(copy.deepcopy(dI)),
+        # same option set, different root types (free strings that must stay quoted): state shared per option set shows here
+        "dumps_layer_s": lambda: mappyfile.dumps(copy.deepcopy(dLs)),
+        "dumps_symbol_s": lambda: mappyfile.dumps(copy.deepcopy(dSs)),
+        # same indent/spacer/quote/newline, different switches and different alignment columns
+        "dumps_align_a": lambda: mappyfile.dumps(copy.deepcopy(dA), align_values=True, end_comment=True),
+        "dumps_align_l": lambda: mappyfile.dumps(copy.deepcopy(dW), align_values=True, end_comment=True),
         "validate_7.6": lambda: [m["message"] for m in mappyfile.validate(copy.deepcopy(dI), 7.6)],
         "validate_8.0": lambda: [m["message"] for m in mappyfile.validate(copy.deepcopy(dI), 8.0)],
         # a small schema (12 keywords, 4 of them version-annotated): every call event is a scheduling point
         "validate_symbol_6.0": lambda: [m["message"] for m in Validator().validate(copy.deepcopy(dS), schema_name="symbol", version=6.0)],
         "findall": lambda: [x["name"] for x in mappyfile.findall(dL["layers"], "group", "g")] + [D.typed(dL)],
         "open": lambda: D.typed(mappyfile.open(fn, include_comments=True)),
+        "open_inc_a": lambda: D.typed(mappyfile.open(roots["a"])),
+        "open_inc_b": lambda: D.typed(mappyfile.open(roots["b"])),
     }
 
 
@@ -307,6 +382,10 @@ def sched_pairs(tier):
         (("validate_symbol_6.0", "validate_symbol_6.0"), "call-all", 1),
         (("dumps", "dumps_default"), "call", 1),
         (("loads", "open"), "call", 1),
+        (("dumps_align_a", "dumps_default"), "call", 1),
+        (("dumps_align_a", "dumps_align_l"), "call", 1),
+        (("dumps_layer_s", "dumps_symbol_s"), "call", 2),
+        (("open_inc_a", "open_inc_b"), "call", 1),
     ]
     if tier == "thorough":
         names = ["loads", "loads_comments_A", "loads_comments_B", "loads_comments_D", "loads_failing", "dumps", "validate_7.6", "validate_8.0", "findall", "open"]
@@ -317,6 +396,11 @@ def sched_pairs(tier):
         q.append((("validate_7.6", "validate_8.0"), "call", 2))
         q.append((("validate_symbol_6.0", "validate_symbol_6.0"), "call-all", 2))
         q.append((("loads_comments_A", "loads_comments_B", "open"), "call", 1))
+        q.append((("open_inc_a", "open_inc_b"), "line", 1))
+        q.append((("dumps_align_a", "dumps_default"), "line", 1))
+        q.append((("dumps_align_a", "dumps_align_l"), "line", 1))
+        q.append((("dumps_layer_s", "dumps_symbol_s"), "call", 2))
+        q.append((("dumps_layer_s", "dumps_symbol_s"), "line", 2))
     return [(names, "+".join(names), g, b) for names, g, b in q]
 
 
@@ -337,7 +421,7 @@ def run_sched(res, pi, shard, nshards, tier):
         return None
 
     if tier == "quick":
-        sched.MAX_PER_LABEL[0] = 2 if gran == "line" else 3
+        sched.MAX_PER_LABEL[0] = 2 if (gran == "line" or bound >= 2) else 3
     else:
         sched.MAX_PER_LABEL[0] = 2 if bound >= 2 else (4 if gran == "line" else 8)
     if gran == "call-all":
@@ -385,6 +469,8 @@ def run_unit(unit):
 
         docs = [(label, D.render(tree)[0]) for label, tree in list(S.s4()) + list(S.root_lists()) + O.rich_docs() + O.shape_docs()]
         run_pure(res, docs[unit[1]::16], public=True)
+    elif k == "PURE_CMT":
+        run_pure(res, list(commented_docs(unit[1])), flag_sets=({"include_comments": True}, {"include_comments": True, "include_position": True}))
     elif k == "PURE_S6":
         docs = []
         for f in corpus.files()[unit[1]::8]:
